@@ -72,11 +72,11 @@ func (r *recorder) take() []sent {
 }
 
 type stepObs struct {
-	NowNs            int64
-	State            int
-	SleepCb, WakeCb  int
+	NowNs             int64
+	State             int
+	SleepCb, WakeCb   int
 	FwdSleep, FwdWake []int
-	Keys             []scx.Key
+	Keys              []scx.Key
 }
 
 var peers = []int{1, 2, 3}
@@ -88,7 +88,7 @@ func runCase(c *vh.Ctx, t *testing.T, keys *scx.Keys, dataDir string, cs *caseSp
 			cfg.Agent.ID = hex.EncodeToString(func() []byte { id := scx.ID(0); return id[:] }())
 			cfg.Agent.DataDir = dataDir
 			cfg.Agent.LogLevel = "error"
-			cfg.UDP.Enabled = false  // their handlers start cleanup goroutines that Agent.Stop never ends
+			cfg.UDP.Enabled = false // their handlers start cleanup goroutines that Agent.Stop never ends
 			cfg.ICMP.Enabled = false
 			cfg.SOCKS5.Enabled = false
 			cfg.HTTP.Enabled = false
@@ -172,7 +172,6 @@ func runCase(c *vh.Ctx, t *testing.T, keys *scx.Keys, dataDir string, cs *caseSp
 	})
 	return
 }
-
 
 func sameCmd(s *scx.CmdSpec, o identity.AgentID, id, ts uint64, sig [64]byte, _ string) bool {
 	return scx.Idx(o) == s.Origin && id == s.ID && ts == s.Ts
@@ -370,9 +369,5 @@ func TestVerif(t *testing.T) {
 		}
 	}
 
-	var sb strings.Builder
-	sb.WriteString("From Coq Require Import List NArith ZArith.\nFrom MM Require Import Model.SleepCmd.\nImport ListNotations.\n")
-	sb.WriteString("Definition cases : list acase := \n" + vh.CoqList(coq) + ".\n")
-	sb.WriteString("Definition M := Eval vm_compute in mismatches cases.\nPrint M.\n")
-	c.WriteCasesV("cases.v", sb.String())
+	c.WriteCasesV("cases.v", scx.CasesV("From Coq Require Import List NArith ZArith.\nFrom MM Require Import Model.SleepCmd.\nImport ListNotations.\n", "acase", "amismatches_from", coq, 1500))
 }
